@@ -357,8 +357,11 @@ func (c *Conn) writeLoop() {
 				if c.s.opts.ChunkWrites && n > 1 && c.rng.Intn(3) != 0 {
 					n = 1 + c.rng.Intn(n)
 				}
-				if c.cutAfter >= 0 && n >= c.cutAfter {
-					n = c.cutAfter
+				c.outMu.Lock() // cutAfter is set by process() under outMu
+				cut := c.cutAfter
+				c.outMu.Unlock()
+				if cut >= 0 && n >= cut {
+					n = cut
 					if n > 0 {
 						_, _ = c.nc.Write(b[:n])
 					}
@@ -369,8 +372,12 @@ func (c *Conn) writeLoop() {
 					c.shutdown("write error")
 					return
 				}
-				if c.cutAfter >= 0 {
-					c.cutAfter -= n
+				if cut >= 0 {
+					c.outMu.Lock()
+					if c.cutAfter >= 0 {
+						c.cutAfter -= n
+					}
+					c.outMu.Unlock()
 				}
 				b = b[n:]
 			}
@@ -693,8 +700,8 @@ func (c *Conn) process(argv []string) {
 	if act.Raw != nil {
 		s.logEvent(Event{Node: c.node.Addr, Conn: c.ID, Kind: "reply", Argv: argv, Note: "raw"})
 		c.enqueueRaw(act.Raw)
-	} else if hasReply {
-		if act.CloseAfter > 0 {
+	} else {
+		if act.CloseAfter > 0 { // also cuts the confirmation pushes of commands without a reply (SUBSCRIBE)
 			c.outMu.Lock()
 			pending := 0
 			for _, b := range c.out {
@@ -703,7 +710,9 @@ func (c *Conn) process(argv []string) {
 			c.cutAfter = pending + act.CloseAfter
 			c.outMu.Unlock()
 		}
-		c.enqueue("reply", reply, argv)
+		if hasReply {
+			c.enqueue("reply", reply, argv)
+		}
 	}
 	c.flushPendingPushes()
 	for _, p := range act.PushAfter {
